@@ -273,7 +273,8 @@ impl<F: FromField> Fields<F> {
                             // of named fields, but `syn` doesn't prevent someone from manually
                             // constructing an invalid collection so a guard is still warranted.
                             if let Some(ident) = &field.ident {
-                                err.at(ident)
+                                // the `r#` of a raw identifier is spelling, not part of the name
+                                err.at(ident.unraw())
                             } else {
                                 err
                             }
